@@ -49,6 +49,10 @@ def zip_columns(fn: Func, g, n, a: ast.expr, b: ast.expr) -> Optional[Tuple[ast.
         inner = e
         if isinstance(inner, ast.Call) and call_name(inner) in ("list", "tuple") and len(inner.args) == 1:
             inner = inner.args[0]
+        if isinstance(inner, (ast.ListComp, ast.GeneratorExp)) and len(inner.generators) == 1 and not inner.generators[0].ifs and isinstance(inner.generators[0].target, (ast.Tuple, ast.List)) and isinstance(inner.elt, ast.Name):
+            names = [norm(t) for t in inner.generators[0].target.elts]
+            if inner.elt.id in names:
+                return [("proj:" + norm(inner.generators[0].iter), names.index(inner.elt.id), inner.generators[0].iter, n)]
         if not isinstance(inner, ast.Name):
             return None
         out = []
@@ -130,3 +134,132 @@ def same_object_pair(p: ast.expr, o_alts: List[ast.expr]) -> Optional[str]:
             if t in (f"{base}.oid", f"{base}.hash_info.value"):
                 return base
     return None
+
+
+# --------------------------------------------------------------------------
+# parallel columns: two lists kept index-aligned by always appending to both together
+# --------------------------------------------------------------------------
+
+def _target_path(target: ast.AST, name: str, prefix=()):
+    """position of Name `name` inside a (nested) tuple target, e.g. `fs, (paths, oids)` -> (1, 1)."""
+    if isinstance(target, ast.Name):
+        return prefix if target.id == name else None
+    if isinstance(target, (ast.Tuple, ast.List)):
+        for i, e in enumerate(target.elts):
+            r = _target_path(e, name, prefix + (i,))
+            if r is not None:
+                return r
+    return None
+
+
+def _target_at(target: ast.AST, path):
+    for i in path:
+        if not isinstance(target, (ast.Tuple, ast.List)) or i >= len(target.elts):
+            return None
+        target = target.elts[i]
+    return target
+
+
+def column_of(g, n, e: ast.AST, depth: int = 4):
+    """(container name, selector tuple, key text) when expression e at node n denotes one list column of a
+    keyed container: D[k] / D[k][i] / D.setdefault(k, ...) / the value element of `for k, v in D.items()`."""
+    from ..an import is_method_call, reaching_defs
+
+    if depth <= 0:
+        return None
+    if isinstance(e, ast.Call) and isinstance(e.func, ast.Name) and e.func.id in ("list", "tuple") and len(e.args) == 1 and not e.keywords:
+        return column_of(g, n, e.args[0], depth)
+    if isinstance(e, ast.Subscript):
+        if isinstance(e.slice, ast.Constant) and isinstance(e.slice.value, int) and not isinstance(e.value, ast.Name):
+            inner = column_of(g, n, e.value, depth)
+            if inner is not None:
+                return inner[0], inner[1] + (e.slice.value,), inner[2]
+        if isinstance(e.value, ast.Name):
+            # D[k]  - or  slot[i] where slot is itself a column holder
+            defs = reaching_defs(g, n.id, e.value.id)
+            if isinstance(e.slice, ast.Constant) and isinstance(e.slice.value, int) and defs:
+                inner = column_of(g, n, e.value, depth - 1)
+                if inner is not None:
+                    return inner[0], inner[1] + (e.slice.value,), inner[2]
+            return e.value.id, (), norm(e.slice)
+        return None
+    if isinstance(e, ast.Call) and is_method_call(e, "setdefault") and isinstance(e.func.value, ast.Name) and len(e.args) == 2:
+        return e.func.value.id, (), norm(e.args[0])
+    if isinstance(e, ast.Name):
+        defs = reaching_defs(g, n.id, e.id)
+        if len(defs) != 1:
+            return None
+        d = defs[0]
+        if d.kind == "for":
+            it = d.ast.iter
+            pos = _target_path(d.ast.target, e.id)
+            if pos is None or not (isinstance(it, ast.Call) and is_method_call(it, "items") and isinstance(it.func.value, ast.Name)) or len(pos) < 1 or pos[0] != 1:
+                return None
+            k = _target_at(d.ast.target, (0,))
+            return it.func.value.id, tuple(pos[1:]), norm(k) if k is not None else None
+        if d.kind == "stmt" and isinstance(d.ast, ast.Assign) and len(d.ast.targets) == 1:
+            pos = _target_path(d.ast.targets[0], e.id)
+            if pos is None:
+                return None
+            inner = column_of(g, d, d.ast.value, depth - 1)
+            if inner is None:
+                return None
+            return inner[0], inner[1] + tuple(pos), inner[2]
+    return None
+
+
+def parallel_columns(ck, fn, g, n, p: ast.AST, o: ast.AST):
+    """None when p / o are not two columns of keyed containers; otherwise (ok, reason).  ok when the two
+    columns are read under the same key and every append to one is accompanied - in the same straight-line
+    block, under the same key - by an append to the other, the two appended values being .path / .oid of
+    one object."""
+    from ..an import avoiding_path, is_method_call
+    from ..prov import expand1
+
+    cp, co = column_of(g, n, p), column_of(g, n, o)
+    if cp is None or co is None or (cp[0], cp[1]) == (co[0], co[1]):
+        return None
+    if cp[2] != co[2]:
+        return False, f"path column {cp[0]}{list(cp[1])} is read under key `{cp[2]}` but oid column {co[0]}{list(co[1])} under key `{co[2]}`"
+    apps = {"p": [], "o": []}
+    for x in g.nodes.values():
+        for c in calls_at(x):
+            if is_method_call(c, "append", "extend", "insert") :
+                col = column_of(g, x, c.func.value)
+                if col is None:
+                    continue
+                for side, want in (("p", cp), ("o", co)):
+                    if (col[0], col[1]) == (want[0], want[1]):
+                        apps[side].append((x, c, col[2]))
+    if not apps["p"] or not apps["o"]:
+        return False, f"no append sites found for columns {cp[0]}{list(cp[1])} / {co[0]}{list(co[1])}"
+    if len(apps["p"]) != len(apps["o"]):
+        return False, f"{len(apps['p'])} append site(s) fill the path column but {len(apps['o'])} fill the oid column: the two lists can get out of step"
+    used = set()
+    for xp, c_p, kp in apps["p"]:
+        mate = None
+        for j, (xo, c_o, ko) in enumerate(apps["o"]):
+            if j in used or ko != kp or xo.loops != xp.loops or c_o.func.attr != "append" or c_p.func.attr != "append":
+                continue
+            first, second = (xp, xo) if avoiding_path(g, xo.id, lambda y, a=xp.id: y.id == a) is None else (xo, xp)
+            if avoiding_path(g, second.id, lambda y, a=first.id: y.id == a) is not None:
+                continue
+            # post-dominance (ignoring exceptions): leaving `first` one always reaches `second`
+            stop = set(first.loops[-1:]) | {g.exit}
+            r = g.reach([d for lab, d in first.succ if lab != "exc"], skip_node=lambda y, b=second.id: y.id == b, skip_edge=lambda a, lab, b: lab == "exc", include_start=True)
+            if second.id in {d for lab, d in first.succ if lab != "exc"}:
+                r = set()
+            if r & stop:
+                continue
+            mate = j
+            break
+        if mate is None:
+            return False, f"the append to the path column at line {getattr(xp.ast, 'lineno', '?')} has no matching append to the oid column in the same block / under the same key"
+        used.add(mate)
+        c_o = apps["o"][mate][1]
+        if len(c_p.args) != 1 or len(c_o.args) != 1:
+            return False, "append with unexpected arguments"
+        base = same_object_pair(c_p.args[0], expand1(ck.prog, fn, c_o.args[0], levels=2))
+        if not base:
+            return False, f"parallel appends add `{norm(c_p.args[0])}` and `{norm(c_o.args[0])}`, which are not .path / .oid of one object"
+    return True, f"paths/oids are parallel columns {cp[0]}{list(cp[1])} / {co[0]}{list(co[1])} read under one key and always appended together with one object's .path / .oid"
